@@ -6,7 +6,7 @@ META = {
     "explanation": "one (to three) real add_block/remove_block/replace_block/setter call(s) executed symbolically from an arbitrary compact well-formed pre-state on a SymFile: table length and live pattern enumerated; every block size, offset, format code, date, comment character and payload byte symbolic; assertions on an independent parse of the committed file",
     "bounds": {"quick": {"table_length_N": "1-3", "live_slots": "0..N (two type orders)", "steps": "1, plus 2-step sequences; library-only histories of length <= 3 from the real Tdf.new output (7-operation alphabet)", "sizes": "any >= 1 with file < 2 GiB"},
                "thorough": {"table_length_N": "1-6, 14", "live_slots": "0..N (14: 0, 3, 13 and 14 = full table)", "steps": "1-3; library-only histories of length <= 4 from the real Tdf.new output", "sizes": "any >= 1 with file < 2 GiB"}},
-    "outside_bounds": ["foreign files whose blocks are stored in an order other than table order or its exact reverse, or whose unused slots do not point at the end of data (covered: gapped files in table order - a symbolic number of undescribed bytes in front of every live block - and compact files stored in reversed table order, single steps)", "files of 2 GiB or more", "table lengths other than those listed", "I/O errors, concurrent writers"],
+    "outside_bounds": ["foreign files whose blocks are stored in an order other than table order, its exact reverse or its rotation by one, or whose unused slots do not point at the end of data (covered: gapped files in table order - a symbolic number of undescribed bytes in front of every live block - and compact files stored in reversed / rotated table order, one- and two-step histories)", "files of 2 GiB or more", "table lengths other than those listed", "I/O errors, concurrent writers"],
     "assumptions": ["OpaqueBlock stands for any block whose _write emits nBytes bytes (discharged for real blocks by C02)",
                     "SymFile buffering contract: writes become visible at flush/seek/read/truncate/close",
                     "induction: the step obligations are discharged from an arbitrary pre-state satisfying the compactness invariant"],
